@@ -41,7 +41,7 @@ def get_default_cl_cwl(memtype, tck):
         f_to_cl_cwl[533e6]  = (4, 3)
         f_to_cl_cwl[677e6]  = (5, 4)
         f_to_cl_cwl[800e6]  = (6, 5)
-        f_to_cl_cwl[1066e6] = (7, 5)
+        f_to_cl_cwl[1066e6] = (7, 6)
     elif memtype == "DDR3":
         f_to_cl_cwl[800e6]  = ( 6, 5)
         f_to_cl_cwl[1066e6] = ( 7, 6)
